@@ -223,7 +223,7 @@ func UnpackDatagram13(
 }
 
 func unpackPlaintextDatagram13Record(buf []byte, offset int) ([]byte, int, error) {
-	if len(buf)-offset <= FixedHeaderSize {
+	if len(buf)-offset < FixedHeaderSize {
 		return nil, 0, ErrInvalidPacketLength
 	}
 
